@@ -1,7 +1,108 @@
-(** Properties_C02.v — statements only (placeholder while the model is being tied to the code). *)
-From Coq Require Import String List.
-From LC Require Import XmlDefs EntTreeDefs PrintDefs LoadDefs RoundtripSpec.
+(** Properties_C02.v — C02 "printing then parsing a model preserves its content": statements only.
+
+    Models: XmlDefs (trees + the attribute-value text layer), EntTreeDefs (entity model), PrintDefs (Printer::printModel),
+    LoadDefs (the CellML 2.0 paths of Parser::parseModel), RoundtripSpec (canon, printable, content_eq).
+    [fixed = true] is the code with fixes/C02-escape-attribute-values.diff and fixes/C02-crossed-map-variables.diff,
+    [fixed = false] the pinned tree.  The environment [E] (15-digit printing, strtod, libxml2's treatment of a math
+    string) is universally quantified: the theorems hold for every environment, because every use that matters is
+    guarded by an executable conjunct of [printable] ([num_ok], [order_ok], [math_ok]). *)
+From Coq Require Import String Ascii List Bool ZArith.
+From LC Require Import Common NumDefs XmlDefs EntTreeDefs PrintDefs LoadDefs RoundtripSpec XmlTextProofs
+     RoundtripReadProofs RoundtripLoadProofs RoundtripFlatProofs RoundtripWitness.
+From LCGen Require RuleTable.
+Import ListNotations.
 Local Open Scope string_scope.
-Example C02_decode_example : decode_attr "a&amp;b" = Some "a&b".
-Proof. reflexivity. Qed.
-Print Assumptions C02_decode_example.
+
+(** * the attribute text layer (fix C02-escape-attribute-values) *)
+
+(** what the repaired printer writes between the quotes is read back unchanged, for every string of XML characters *)
+Theorem C02_escape_roundtrip : forall s, no_ctrl s = true -> decode_attr (escape_attr s) = Some s.
+Proof. exact XmlTextProofs.decode_escape. Qed.
+Print Assumptions C02_escape_roundtrip.
+
+(** the unrepaired printer: raw text is refused (no document, silently) or comes back changed *)
+Theorem C02_raw_text_refuted :
+  decode_attr "a<b" = None /\ decode_attr "m?a=1&b=2" = None /\ decode_attr (String c_quot "") = None
+  /\ decode_attr "a&amp;b" = Some "a&b" /\ decode_attr (String c_tab "x") = Some " x"
+  /\ decode_attr (String c_cr (String c_lf "x")) = Some " x".
+Proof. exact XmlTextProofs.decode_raw_refuted. Qed.
+Print Assumptions C02_raw_text_refuted.
+
+(** * print_nonempty: on every printable model (ALL features: imports, encapsulation, connections, resets, math) the
+      repaired printer yields a document, and it is the tree the printer means *)
+Theorem C02_print_nonempty : forall E m, printable E true m -> print_model E true m = Some (print_tree E m).
+Proof. exact RoundtripReadProofs.print_model_printable. Qed.
+Print Assumptions C02_print_nonempty.
+
+(** the pinned printer does not: DESIGN.md section 5 row 5 (and the same models round-trip once repaired) *)
+Theorem C02_print_refuted :
+  outcome_of false (w_initial_value "a<b") = NoDocument /\ outcome_of false (w_href "m?a=1&b=2") = NoDocument
+  /\ outcome_of false (w_initial_value "a&amp;b") = ContentDiffers
+  /\ outcome_of false (w_initial_value (String (ascii_of_nat 9) "x")) = ContentDiffers
+  /\ outcome_of true (w_initial_value "a<b") = RoundTrips /\ outcome_of true (w_href "m?a=1&b=2") = RoundTrips
+  /\ outcome_of true (w_initial_value "a&amp;b") = RoundTrips
+  /\ outcome_of true (w_initial_value (String (ascii_of_nat 9) "x")) = RoundTrips.
+Proof. exact RoundtripWitness.unrepaired_printer_outcomes. Qed.
+Print Assumptions C02_print_refuted.
+
+(** * roundtrip, stages 1 and 2 (flat models: units with unit children, components with variables, resets, math):
+      strict parsing of the printed document gives EXACTLY canon m, without any issue *)
+Theorem C02_roundtrip_flat : forall E fx m, printable E true m -> flat m = true ->
+  print_model E true m = Some (print_tree E m) /\ load E fx true (print_tree E m) = (canon E m, []).
+Proof. exact RoundtripFlatProofs.roundtrip_flat. Qed.
+Print Assumptions C02_roundtrip_flat.
+
+(** the loader, element by element (used by every stage) *)
+Theorem C02_load_unit : forall E d, unitdef_ok E true d = true -> load_unit E (print_unit E ident d) = (canon_unitdef E d, []).
+Proof. exact RoundtripLoadProofs.load_print_unit. Qed.
+Print Assumptions C02_load_unit.
+
+Theorem C02_load_variable : forall us v, variable_ok true us v = true -> load_variable (print_variable ident v) = (v, []).
+Proof. exact RoundtripLoadProofs.load_print_variable. Qed.
+Print Assumptions C02_load_variable.
+
+Theorem C02_load_reset : forall E vs r, reset_ok E true vs r = true ->
+  load_reset E vs (print_reset E ident ident r) = (canon_reset E r, []).
+Proof. exact RoundtripLoadProofs.load_print_reset. Qed.
+Print Assumptions C02_load_reset.
+
+(** no namespace issue on any printed tree *)
+Theorem C02_no_namespace_issues : forall E m, forallb (comp_ok E true (m_units m)) (m_comps m) = true ->
+  namespace_issues (print_tree E m) = [].
+Proof. intros E m H. apply RoundtripLoadProofs.clean_no_namespace_issues. now apply RoundtripLoadProofs.clean_print_tree. Qed.
+Print Assumptions C02_no_namespace_issues.
+
+(** * every hypothesis of [printable] is needed: one witness each (outside printable, round trip fails) *)
+Theorem C02_printable_conjuncts_refuted :
+  forallb (fun p => negb (printableb E0 true (snd p)) && negb (is_round_trip (outcome_of true (snd p)))) witnesses = true.
+Proof. exact RoundtripWitness.witnesses_fail. Qed.
+Print Assumptions C02_printable_conjuncts_refuted.
+
+(** crossed variable names between two components (fix C02-crossed-map-variables) *)
+Theorem C02_crossed_names_refuted :
+  outcome_of false w_crossed_names = Issues 1 /\ outcome_of true w_crossed_names = RoundTrips
+  /\ printableb E0 false w_crossed_names = false /\ printableb E0 true w_crossed_names = true.
+Proof. exact RoundtripWitness.crossed_names_outcomes. Qed.
+Print Assumptions C02_crossed_names_refuted.
+
+(** * non-vacuity: a printable model using every feature, and its round trip (by computation) *)
+Example C02_full_model_printable : printableb E0 true full_model = true.
+Proof. exact RoundtripWitness.full_model_printable. Qed.
+Print Assumptions C02_full_model_printable.
+
+Example C02_full_model_round_trips : outcome_of true full_model = RoundTrips.
+Proof. exact RoundtripWitness.full_model_round_trips. Qed.
+Print Assumptions C02_full_model_round_trips.
+
+(** * tie of the loader's rule names to the regenerated rule table *)
+Theorem C02_rules_in_table : forallb (fun r => existsb (String.eqb r) LCGen.RuleTable.rule_names) loader_rules = true.
+Proof. vm_compute. reflexivity. Qed.
+Print Assumptions C02_rules_in_table.
+
+(* NOT PROVED (stages 3-5 of the plan, see design_notes/C02.md):
+   roundtrip : forall E m, printable E true m ->
+     exists m', load E true true (print_tree E m) = (m', []) /\ content_eq m' (canon E m)
+   for models WITH an encapsulation hierarchy, connections or imports.  What is proved for them: C02_print_nonempty,
+   C02_no_namespace_issues, the element-level loader theorems above, the subtree theorem of loadComponentRef
+   (RoundtripEncProofs.cref_ok); the instance of the statement is CHECKED on every generated model by the
+   correspondence run (the extracted [printableb], [load], [canon] are evaluated and compared up to child order). *)
